@@ -297,7 +297,9 @@ impl rustc_driver::Callbacks for Cb {
                 Some(imp) => (tcx.type_of(imp).instantiate_identity().skip_norm_wip().to_string(), tcx.impl_opt_trait_ref(imp).map(|t| t.instantiate_identity().skip_norm_wip().to_string()).unwrap_or_default()),
                 None => (String::new(), String::new()),
             };
-            let _ = write!(out, "{{\"path\":{},\"kind\":{},\"public\":{},\"self_ty\":{},\"trait\":{},\"argc\":{},\"span\":{},\"locals\":[", esc(&tcx.def_path_str(did)), esc(&format!("{:?}", kind)), public, esc(&self_ty), esc(&trait_), body.arg_count, cx.span(body.span));
+            let gens = tcx.generics_of(did);
+            let gnames: Vec<String> = if matches!(kind, DefKind::Closure) { vec![] } else { (0..gens.count()).map(|i| esc(&gens.param_at(i, tcx).name.to_string())).collect() };
+            let _ = write!(out, "{{\"path\":{},\"kind\":{},\"public\":{},\"self_ty\":{},\"trait\":{},\"argc\":{},\"generics\":[{}],\"span\":{},\"locals\":[", esc(&tcx.def_path_str(did)), esc(&format!("{:?}", kind)), public, esc(&self_ty), esc(&trait_), body.arg_count, gnames.join(","), cx.span(body.span));
             let mut names = vec![String::new(); body.local_decls.len()];
             for vdi in &body.var_debug_info { if let VarDebugInfoContents::Place(p) = &vdi.value { if p.projection.is_empty() { names[p.local.as_usize()] = vdi.name.to_string(); } } }
             for (i, (l, d)) in body.local_decls.iter_enumerated().enumerate() {
